@@ -606,6 +606,11 @@ pub(super) struct PendingAcks {
     /// Once the count _exceeds_ `ack_eliciting_threshold`, an immediate ACK is required
     ack_eliciting_since_last_ack_sent: u64,
     non_ack_eliciting_since_last_ack_sent: u64,
+    /// Whether the packet currently being processed was marked ECN-CE
+    ///
+    /// Acknowledging congestion marks promptly is only called for once the packet turns out to be
+    /// ack-eliciting: answering a non-ack-eliciting packet with another one would never end.
+    congestion_experienced: bool,
     ack_eliciting_threshold: u64,
     /// The reordering threshold, controlling how we respond to out-of-order ack-eliciting packets
     ///
@@ -636,6 +641,7 @@ impl PendingAcks {
             immediate_ack_required: false,
             ack_eliciting_since_last_ack_sent: 0,
             non_ack_eliciting_since_last_ack_sent: 0,
+            congestion_experienced: false,
             ack_eliciting_threshold: 1,
             reordering_threshold: 1,
             earliest_ack_eliciting_since_last_ack_sent: None,
@@ -653,6 +659,11 @@ impl PendingAcks {
 
     pub(super) fn set_immediate_ack_required(&mut self) {
         self.immediate_ack_required = true;
+    }
+
+    /// Note that the packet being processed carries an ECN-CE mark
+    pub(super) fn set_congestion_experienced(&mut self) {
+        self.congestion_experienced = true;
     }
 
     pub(super) fn on_max_ack_delay_timeout(&mut self) {
@@ -685,10 +696,14 @@ impl PendingAcks {
         ack_eliciting: bool,
         dedup: &Dedup,
     ) -> bool {
+        let congestion_experienced = mem::take(&mut self.congestion_experienced);
         if !ack_eliciting {
             self.non_ack_eliciting_since_last_ack_sent += 1;
             return false;
         }
+
+        // Congestion marks are reported without delay
+        self.immediate_ack_required |= congestion_experienced;
 
         let prev_largest_ack_eliciting = self.largest_ack_eliciting_packet.unwrap_or(0);
 
